@@ -4698,6 +4698,18 @@ impl Handler {
         // on the result messages.
         // (`created_here` / `dropped_here` were collected per statement above.)
         let kgs_before: Vec<String> = self.storage.read().list_knowledge_graphs();
+        // A graph that is dropped and re-created by the same program exists before and
+        // after: tell the two incarnations apart by their creation time.
+        let incarnation = |name: &str| -> Option<String> {
+            self.storage
+                .read()
+                .with_kg_read(name, |kg| Ok(kg.metadata().created_at.clone()))
+                .ok()
+        };
+        let dropped_before: Vec<(String, Option<String>)> = dropped_here
+            .iter()
+            .map(|name| (name.clone(), incarnation(name)))
+            .collect();
 
         let result = if is_query {
             if let Some(sid) = session_id {
@@ -4719,22 +4731,34 @@ impl Handler {
         // "Rule 'p' dropped." and removed the ACLs of a graph that still existed.
         let kgs_after: Vec<String> = self.storage.read().list_knowledge_graphs();
 
-        // Auto-grant owner ACL to the creator of a new KG.
-        if let Some(identity) = effective_auth {
-            if identity.role != crate::auth::Role::Admin {
-                for name in &created_here {
-                    if kgs_after.contains(name) && !kgs_before.contains(name) {
-                        let _ = self.handle_kg_acl_grant(name, &identity.username, "owner");
-                    }
+        // If a KG was dropped, clean up sessions and ACLs - also when the program re-created a
+        // graph of the same name afterwards (a different incarnation: the old graph's ACL
+        // rows and sessions must not carry over to it).
+        let mut replaced: Vec<String> = Vec::new();
+        for (name, before) in &dropped_before {
+            let gone = kgs_before.contains(name) && !kgs_after.contains(name);
+            let recreated = kgs_before.contains(name)
+                && kgs_after.contains(name)
+                && before.is_some()
+                && incarnation(name) != *before;
+            if (gone || recreated) && !replaced.contains(name) {
+                self.sessions.close_sessions_for_kg(name);
+                self.cleanup_kg_acls(name);
+                if recreated {
+                    replaced.push(name.clone());
                 }
             }
         }
 
-        // If a KG was dropped, clean up sessions and ACLs.
-        for name in &dropped_here {
-            if kgs_before.contains(name) && !kgs_after.contains(name) {
-                self.sessions.close_sessions_for_kg(name);
-                self.cleanup_kg_acls(name);
+        // Auto-grant owner ACL to the creator of a new KG.
+        if let Some(identity) = effective_auth {
+            if identity.role != crate::auth::Role::Admin {
+                for name in &created_here {
+                    let is_new = !kgs_before.contains(name) || replaced.contains(name);
+                    if kgs_after.contains(name) && is_new {
+                        let _ = self.handle_kg_acl_grant(name, &identity.username, "owner");
+                    }
+                }
             }
         }
 
